@@ -385,6 +385,9 @@ Proof.
     unfold_step. name_closed. inversion Hstep; subst. finish_step. exact Hsim.
   - (* GNU_args_size *)
     unfold_step. name_closed. inversion Hstep; subst. finish_step. exact Hsim.
+  - (* MIPS_advance_loc8: not implemented, excluded by low6_ok *) discriminate.
+  - (* AARCH64_negate_ra_state_with_pc *) discriminate.
+  - (* GNU_negative_offset_extended *) discriminate.
 Qed.
 
 (* ---------------------------------------------------------------- the loop *)
